@@ -1094,3 +1094,124 @@ def ru_propagation(norb, nocc, nchol=1):
     out.append(H.identity(name + ".exp_h1.up", a["exp_h1"], eb[0], functions=fns, inputs=inp, t0=t0, note="same expm argument for the up block"))
     out.append(H.identity(name + ".exp_h1.dn", a["exp_h1"], eb[1], functions=fns, inputs=inp, t0=t0, note="same expm argument for the down block"))
     return out
+
+
+# ====================================================================================== C01: one-particle density matrices
+def rdm_true(kind, norb, nu, nd, complex_orbitals=False):
+    """C01.rdm.true.<kind>: _calc_rdm1 is the true <psi| a+ a |psi>/<psi|psi> of the trial state (rdm1[s][p,q] = <a+_q a_p>, the convention of uhf).
+    rhf/uhf/ghf: exact (Gaussian-)rational ORTHONORMAL orbitals; noci: general symbolic real determinants and coefficients."""
+    t0 = time.time()
+    H.setup_repo()
+    import jax.numpy as jnp
+    from ad_afqmc import wavefunctions as wf
+    nel = (nu, nd)
+    F = Fock(norb, nel)
+    name = f"C01.rdm.true.{tag(kind, norb, nel, cplx=int(complex_orbitals))}"
+    if kind == "noci":
+        c = Case("noci", norb, nel, ndets=2)
+        s, x = c.sx(c.wave)
+        got, _ = evaluate(c.inp.sp, c.trial._calc_rdm1, (s,), (x,))
+        psi = c.psibar.s
+        nrm = F.inner(psi, psi)
+        want = np.empty((2, norb, norb), dtype=object)
+        for sp_ in range(2):
+            for p in range(norb):
+                for q in range(norb):
+                    want[sp_, p, q] = F.inner(psi, F.apply_E(q, p, sp_, psi)) / nrm
+        return [H.identity(name, got, want, functions=fq(c, "_calc_rdm1"), inputs=c.inp, t0=t0, note="NOCI 1-RDM == <psi|a+_q a_p|psi>/<psi|psi> for symbolic real determinants")]
+    # exact orthonormal orbitals
+    M = rational_orthogonal(2 * norb if kind == "ghf" else norb)
+    Mc = np.array(M, dtype=object)
+    if complex_orbitals:     # multiply the columns by unit-modulus Gaussian rationals and mix two rows with a complex rotation
+        ph = [(Fraction(3, 5), Fraction(4, 5)), (Fraction(5, 13), Fraction(-12, 13)), (Fraction(8, 17), Fraction(15, 17)), (Fraction(7, 25), Fraction(24, 25))]
+        Mc = np.array([[complex(float(M[i, j]), 0) for j in range(M.shape[1])] for i in range(M.shape[0])], dtype=object)
+        cols = []
+        for j in range(M.shape[1]):
+            a, b = ph[j % len(ph)]
+            cols.append([(M[i, j] * a, M[i, j] * b) for i in range(M.shape[0])])
+        Mc = cols     # list of columns of (re, im) Fractions
+    inp = H.Inputs(3)
+    dummy = inp.declare("dummy", ())
+    inp.build()
+    sp = inp.sp
+
+    def col_arrays(ncols_from, ncols):
+        a_s = np.empty((M.shape[0], ncols), dtype=object)
+        a_x = np.empty((M.shape[0], ncols), dtype=complex)
+        for j in range(ncols):
+            for i in range(M.shape[0]):
+                if complex_orbitals:
+                    re, im = Mc[ncols_from + j][i]
+                    a_s[i, j] = sp.const((re, im))
+                    a_x[i, j] = complex(float(re), float(im))
+                else:
+                    a_s[i, j] = sp.const(M[i, ncols_from + j])
+                    a_x[i, j] = float(M[i, ncols_from + j])
+        return a_s, (a_x if complex_orbitals else a_x.real)
+    if kind == "rhf":
+        trial = wf.rhf(norb, nel)
+        cs, cx = col_arrays(0, nu)
+        wave_s, wave_x = dict(mo_coeff=cs), dict(mo_coeff=jnp.asarray(cx))
+        psi = F.det_vec(cs, cs)
+    elif kind == "uhf":
+        trial = wf.uhf(norb, nel)
+        cs, cx = col_arrays(0, nu)
+        ds, dx = col_arrays(norb - nd, nd)
+        wave_s, wave_x = dict(mo_coeff=[cs, ds]), dict(mo_coeff=[jnp.asarray(cx), jnp.asarray(dx)])
+        psi = F.det_vec(cs, ds)
+    elif kind == "ghf":
+        if complex_orbitals:
+            raise Unsupported("ghf trials are real")
+        # the GHF trial state is the spin-orbital determinant itself (all S_z sectors): 1-RDM on the spin-orbital Fock space
+        import itertools
+        trial = wf.ghf(norb, nel)
+        cs, cx = col_arrays(0, nu + nd)
+        n, so = nu + nd, 2 * norb
+        strings = list(itertools.combinations(range(so), n))
+        sidx = {t: k for k, t in enumerate(strings)}
+        amp = [det_sym(cs[list(t), :]) for t in strings]
+        nrm = sum((a * a for a in amp[1:]), amp[0] * amp[0])
+        got = np.asarray(trial._calc_rdm1(dict(mo_coeff=jnp.asarray(cx))))
+        bad, worst = [], 0.0
+        for sp_ in range(2):
+            for p_ in range(norb):
+                for q_ in range(norb):
+                    P, Q = p_ + sp_ * norb, q_ + sp_ * norb
+                    tot = sp.zero
+                    for t in strings:           # <psi| a+_Q a_P |psi>
+                        r = Fock._ann(t, P)
+                        if r is None:
+                            continue
+                        r2 = Fock._cre(r[1], Q)
+                        if r2 is None:
+                            continue
+                        term = amp[sidx[r2[1]]] * amp[sidx[t]]
+                        tot = tot + term if r[0] * r2[0] > 0 else tot - term
+                    wv = complex((tot / nrm).evalf({}))
+                    dev = abs(complex(got[sp_, p_, q_]) - wv)
+                    worst = max(worst, dev)
+                    if dev > 1e-12:
+                        bad.append((sp_, p_, q_, str(complex(got[sp_, p_, q_])), str(wv)))
+        return [ob(name, REFUTED if bad else DISCHARGED, kind="bounded", backend="exact-arithmetic-exec", wall=time.time() - t0, functions=[f"{WF}.ghf._calc_rdm1"], replayed=bool(bad),
+                   detail=(f"spin blocks of the 1-RDM of the spin-orbital determinant (max dev {worst:.1e})" if not bad else f"{len(bad)} entries differ: first {bad[0]}"),
+                   witness=dict(native=bad[:3]) if bad else None)]
+    else:
+        raise Unsupported(kind)
+    psib = np.array([v.conj() if isinstance(v, Fr) else v for v in psi], dtype=object)
+    got = np.asarray(trial._calc_rdm1(wave_x))
+    nrm = F.inner(psib, psi)
+    bad, worst = [], 0.0
+    for sp_ in range(2):
+        for p in range(norb):
+            for q in range(norb):
+                w = F.inner(psib, F.apply_E(q, p, sp_, psi)) / nrm
+                wv = complex(w.evalf({})) if isinstance(w, Fr) else complex(w)
+                dev = abs(complex(got[sp_, p, q]) - wv)
+                worst = max(worst, dev)
+                if dev > 1e-12:
+                    bad.append((sp_, p, q, str(complex(got[sp_, p, q])), str(wv)))
+    fns = [f"{WF}.{kind}._calc_rdm1"]
+    return [ob(name, REFUTED if bad else DISCHARGED, kind="bounded", backend="exact-arithmetic-exec", wall=time.time() - t0, functions=fns, replayed=bool(bad),
+               witness_class="complex-orbitals" if complex_orbitals else "real-orbitals",
+               detail=(f"rdm1[s][p,q] == <a+_q a_p> for exact {'complex ' if complex_orbitals else ''}orthonormal orbitals (max dev {worst:.1e})" if not bad else
+                       f"{len(bad)} entries differ from <psi|a+_q a_p|psi>: first {bad[0]}"), witness=dict(native=bad[:3]) if bad else None)]
